@@ -401,6 +401,92 @@ theorem expiry_le_max {s s' : State} {blk : Block} {snd : Addr} {t d : String} {
   simp only [chooseExpiry, Option.getD_none] at hexp
   cases hm : s.cfg.maxVotingPeriod.after blk <;> simp [hm, Expiration.cmp?] at hexp <;> simp [hexp]
 
+/-! ## world level: what a committed Execute dispatched, and general re-entrancy -/
+
+/-- The ghost event a successfully dispatched non-self-call message leaves. -/
+def leafEvent : Msg → Event
+  | .bank to amt denom => .sent to amt denom
+  | .other tag => .called tag
+  | _ => .called "unreachable"
+
+theorem leaf_log {w w' : World} {m : Msg} (h : leaf w m = .ok w') : w'.log = w.log ++ [leafEvent m] := by
+  cases m <;> simp [leaf] at h
+  · obtain ⟨b, _, rfl⟩ := h; simp [leafEvent]
+  · obtain ⟨_, rfl⟩ := h; simp [leafEvent]
+
+/-- Dispatching a list of messages none of which calls back into the multisig logs exactly one event per message, in
+order, and leaves the multisig state alone. -/
+theorem dispatch_leaves (blk : Block) : ∀ (fuel : Nat) (w w' : World) (msgs : List Msg),
+    (∀ m ∈ msgs, selfCall m = none) → dispatch fuel w blk msgs = .ok w' →
+    w'.log = w.log ++ msgs.map leafEvent ∧ w'.ms = w.ms
+  | _, w, w', [], _, h => by simp [dispatch] at h; subst h; simp
+  | 0, w, w', _ :: _, _, h => by simp [dispatch] at h
+  | fuel + 1, w, w', m :: rest, hl, h => by
+    simp only [dispatch, hl m (by simp), Res.bind_ok] at h
+    obtain ⟨w1, h1, h2⟩ := h
+    obtain ⟨e1, e2⟩ := dispatch_leaves blk fuel w1 w' rest (fun x hx => hl x (by simp [hx])) h2
+    rw [e1, e2, leaf_log h1, (leaf_ms h1).1]
+    simp
+
+/-- **C05 "messages are dispatched only by Execute, exactly as proposed", world level** (clause a/c at the level of the
+runtime).  A committed Execute transaction of a proposal none of whose messages calls back into the multisig appends to
+the ghost log exactly `executed id` followed by one event per message of the proposal — `sent to amount denom` for a
+bank send, `called tag` for an external call — in the proposal's order, nothing else; and the proposal is stored
+Executed.  (By `expiry_le_max` / `proposal_immutable` those messages are the ones submitted with `Propose`.) -/
+theorem execute_tx_dispatches_msgs {fuel : Nat} {w w' : World} {blk : Block} {snd : Addr} {id : Nat} {p : Proposal}
+    (hp : w.ms.core.proposals.get? id = some p) (hleaf : ∀ m ∈ p.msgs, selfCall m = none)
+    (h : tx fuel w blk snd (.execute id) = .ok w') :
+    w'.log = w.log ++ .executed id :: p.msgs.map leafEvent ∧
+    ∃ p', w'.ms.core.proposals.get? id = some p' ∧ p'.status = .executed := by
+  simp only [tx, Res.bind_ok] at h
+  obtain ⟨⟨s', out⟩, he, hd⟩ := h
+  have hout := execute_out_eq_msgs he
+  obtain ⟨p0, hp0, hout⟩ := hout
+  rw [hp] at hp0; cases hp0
+  subst hout
+  obtain ⟨e1, e2⟩ := dispatch_leaves blk fuel _ w' p.msgs hleaf hd
+  refine ⟨by rw [e1]; simp [eventOf], ?_⟩
+  rw [e2]
+  obtain ⟨p', _, hs', _⟩ := execute_sets_executed he
+  exact ⟨_, hs', rfl⟩
+
+/-- **End to end: what Execute returns is what was proposed.**  If proposal `id` exists in a reachable world `w0` with
+messages `p0.msgs` (by `expiry_le_max` the `msgs` argument of the Propose that created it), then after ANY further
+history every successful Execute of `id` returns exactly those messages, in order. -/
+theorem executed_msgs_are_proposed {fuel : Nat} {w0 : World} (hr : Reachable fuel w0) (ops : List Op)
+    {id : Nat} {p0 : Proposal} (hp0 : w0.ms.core.proposals.get? id = some p0)
+    {blk : Block} {snd : Addr} {s' : State} {out : List Msg}
+    (h : execute (run fuel w0 ops).ms blk snd (.execute id) = .ok (s', out)) : out = p0.msgs := by
+  obtain ⟨p, hp, hout⟩ := execute_out_eq_msgs h
+  obtain ⟨p', hp', _, _, _, _, hm, _⟩ := proposal_immutable hr ops hp0
+  rw [hp] at hp'; cases hp'
+  rw [hout, hm]
+
+/-- **General re-entrancy** (covers indirect cycles 1 → 2 → 1): once a proposal is stored Executed, whatever is
+dispatched afterwards — any message list, any nesting of self-calls — adds no further `executed id` event: a nested
+Execute of it anywhere fails and with it the whole dispatch; a successful dispatch contains none. -/
+theorem dispatch_no_second_execution {fuel : Nat} {w w' : World} {blk : Block} {msgs : List Msg} {id : Nat}
+    (hi : Inv w.ms) (hx : isExec w.ms.core id = true) (h : dispatch fuel w blk msgs = .ok w') :
+    w'.log.count (.executed id) = w.log.count (.executed id) ∧ isExec w'.ms.core id = true := by
+  have := dispatch_inv
+    (fun v => Inv v.ms ∧ isExec v.ms.core id = true ∧ v.log.count (.executed id) = w.log.count (.executed id)) blk
+    (fun v snd em s' out ⟨hi, hx, hc⟩ he => by
+      obtain ⟨h1, h2⟩ := handler_isExec hi he id
+      refine ⟨execute_inv hi he, by rw [h1, hx]; rfl, ?_⟩
+      have hne : eventOf v.ms snd em ≠ .executed id := by
+        intro e
+        have := h2 ((eventOf_executed _ _ _ _).mp e)
+        rw [hx] at this; cases this
+      simp only [List.count_append, List.count_cons, List.count_nil]
+      simp [hne, hc])
+    (fun v m v' ⟨hi, hx, hc⟩ hl => by
+      obtain ⟨hms, _, _⟩ := leaf_ms hl
+      refine ⟨hms ▸ hi, hms ▸ hx, ?_⟩
+      rw [leaf_log hl, List.count_append, hc]
+      cases m <;> simp [leafEvent])
+    fuel w msgs w' ⟨hi, hx, rfl⟩ h
+  exact ⟨this.2.2, this.2.1⟩
+
 /-! ## the observed status only moves forward as time passes -/
 
 theorem isExpired_mono {e : Expiration} {b b' : Block} (hb : blockLe b b') (h : e.isExpired b = true) :
@@ -599,5 +685,20 @@ example : ReachableFrom 10 exW0 ⟨100, 1001⟩ (run 10 exW0 exMore) ⟨102, 100
 /-- observed Passed at block 100 before, Executed at block 500 after -/
 example : ((Cw3Fixed.queryProposal exW0.ms ⟨100, 1001⟩ 1).toOption.map (·.status)) = some .passed ∧
     ((Cw3Fixed.queryProposal (run 10 exW0 exMore).ms ⟨500, 5000⟩ 1).toOption.map (·.status)) = some .executed := by decide
+
+/-- non-vacuity of `execute_tx_dispatches_msgs`: a passed proposal with one bank message and one external call; the
+committed Execute logs `executed 1, sent …, called …` -/
+example :
+    let w := run 10 exWorld
+      [⟨exBlk, .exec "a" (.propose "t" "d" [.bank "bob" 2 "ucosm", .other "x"] none)⟩, ⟨exBlk, .exec "b" (.vote 1 .yes)⟩]
+    ((tx 10 w exBlk "z" (.execute 1)).toOption.map fun w' => w'.log.drop w.log.length)
+      = some [.executed 1, .sent "bob" 2 "ucosm", .called "x"] := by
+  decide
+
+/-- non-vacuity of `dispatch_no_second_execution`: after `exMore` proposal 1 is stored Executed (ghost count 1), the
+state satisfies `Inv`, and a further dispatch (an external call) succeeds — without adding an execution -/
+example : isExec (run 10 exW0 exMore).ms.core 1 = true ∧ executions (run 10 exW0 exMore) 1 = 1 ∧
+    ((dispatch 5 (run 10 exW0 exMore) ⟨103, 1003⟩ [.other "x"]).toOption.map fun w' => executions w' 1) = some 1 := by
+  decide
 
 end CwPlus.Props.C05
